@@ -172,29 +172,41 @@ func (k msgServer) Complete(goCtx context.Context, msg *types.MsgComplete) (*typ
 			order.Shards = newShards
 			k.order.SetOrder(ctx, *order)
 		}
-		// the order the migration was started under may have ended meanwhile (its period rotated
-		// into a renewal while the migration was pending): it no longer pays for the shard
-		// and must not keep listing it, nor stay behind with nothing else to its name
-		if startedUnder != shard.OrderId {
-			handled := false
-			for _, o := range orderList {
-				if o.Id == startedUnder {
-					handled = true
+		// Orders that listed the shard while the migration was pending but do not pay for it any
+		// longer: the order the migration was started under, and every renewal order whose period
+		// ended meanwhile (the old shard rotated on to the next renewal). They must not keep listing
+		// the new shard, nor stay behind with nothing else to their name.
+		stale := []uint64{startedUnder}
+		if isFoundMeta {
+			stale = append(stale, meta.Orders...)
+		}
+		seen := map[uint64]bool{}
+		for _, o := range orderList {
+			seen[o.Id] = true
+		}
+		for _, id := range stale {
+			if seen[id] {
+				continue
+			}
+			seen[id] = true
+			staleOrder, found := k.order.GetOrder(ctx, id)
+			if !found {
+				continue
+			}
+			rest := make([]uint64, 0)
+			for _, sid := range staleOrder.Shards {
+				if sid != shard.Id && sid != oldShard.Id {
+					rest = append(rest, sid)
 				}
 			}
-			if startedOrder, found := k.order.GetOrder(ctx, startedUnder); found && !handled {
-				rest := make([]uint64, 0)
-				for _, id := range startedOrder.Shards {
-					if id != shard.Id && id != oldShard.Id {
-						rest = append(rest, id)
-					}
-				}
-				if len(rest) == 0 {
-					k.order.RemoveOrder(ctx, startedOrder.Id)
-				} else {
-					startedOrder.Shards = rest
-					k.order.SetOrder(ctx, startedOrder)
-				}
+			if len(rest) == len(staleOrder.Shards) {
+				continue
+			}
+			if len(rest) == 0 {
+				k.order.RemoveOrder(ctx, staleOrder.Id)
+			} else {
+				staleOrder.Shards = rest
+				k.order.SetOrder(ctx, staleOrder)
 			}
 		}
 	} else {
